@@ -1,6 +1,6 @@
 // corr-c18: re-processing, incremental loading and failed loads do not skew results.
 //
-// A case is a history of load(good text) | load(bad text) | process | read operations executed
+// A case is a history of load(good text) | load(bad text) | process | getmodule | read operations executed
 // on ONE yang.Modules value, in a crash-isolated worker.  After every process the worker takes
 // the canonical dump of the outcome (lib.DumpOutcome, extended Go-side by the trees of the
 // submodules and by every identity's value list with source positions) and ALSO the dump of a
@@ -46,6 +46,9 @@ type StepRes struct {
 	// process (clean or with errors): first difference between the trees ToEntry hands out for every
 	// module and submodule of the one value right after the run and those of the fresh twin (treesAfter)
 	TreeDiff string `json:"tree_diff,omitempty"`
+	// getmodule: first difference between the tree (or the errors) GetModule returned on the one value
+	// and what GetModule of a fresh set that loaded the same accepted texts returns ("" when equal)
+	GetDiff string `json:"get_diff,omitempty"`
 	Read     string `json:"read,omitempty"` // found <hex path> | found ~ | nomodule
 	// every op: first difference between the answers of the one value and of the SHADOW value - a
 	// second Modules value that runs the same history without the loads the one value refused -
@@ -488,6 +491,47 @@ func treeDiff(a, b []string) string {
 	return ""
 }
 
+// returnedDiff compares what GetModule returned on the one value (a) and on the fresh twin (b): the
+// nodes that only one of the two trees has are named first (decoded), then the first differing record.
+func returnedDiff(a, b []string) string {
+	paths := func(recs []string) map[string]bool {
+		out := map[string]bool{}
+		for _, r := range recs {
+			if f := strings.Fields(r); len(f) > 2 && f[0] == "N" {
+				if p, err := lib.UnHex(f[2]); err == nil {
+					out[string(p)] = true
+				}
+			}
+		}
+		return out
+	}
+	pa, pb := paths(a), paths(b)
+	var onlyA, onlyB []string
+	for _, k := range lib.SortedKeys(pa) {
+		if !pb[k] {
+			onlyA = append(onlyA, k)
+		}
+	}
+	for _, k := range lib.SortedKeys(pb) {
+		if !pa[k] {
+			onlyB = append(onlyB, k)
+		}
+	}
+	if len(onlyA)+len(onlyB) > 0 {
+		cut := func(x []string) string {
+			if len(x) > 6 {
+				return strings.Join(x[:6], " ") + " ..."
+			}
+			if len(x) == 0 {
+				return "(none)"
+			}
+			return strings.Join(x, " ")
+		}
+		return "nodes only in the tree returned on the one value: " + cut(onlyA) + "; nodes only in the tree a fresh set returns: " + cut(onlyB)
+	}
+	return treeDiff(a, b)
+}
+
 func nameMaps(ms *yang.Modules) map[string]*yang.Module {
 	out := map[string]*yang.Module{}
 	for k, v := range ms.Modules {
@@ -596,6 +640,57 @@ func runGo(h History) GoRes {
 					sr.Dump = []string{}
 				}
 			}
+		case "getmodule":
+			// Modules.GetModule(name): the documented convenience path - it processes on demand and
+			// hands out the tree of one module.  What it RETURNS is compared with what GetModule of a
+			// fresh set that loaded the same accepted texts returns, then the value is looked at as
+			// after a Process (GetModule is a processing run for everything that follows).
+			if ms.Modules[op.Name] == nil {
+				// (GetModule would go to the file system: not part of the machine)
+				sr.Read = "nomodule"
+				break
+			}
+			e, errs := ms.GetModule(op.Name)
+			got := func(e *yang.Entry, errs []error) []string {
+				var out []string
+				if e != nil {
+					lib.DumpTree("module:"+op.Name, e, &out)
+					for _, x := range lib.CanonErrs(e.GetErrors()) {
+						out = append(out, "T-"+x)
+					}
+				} else {
+					out = append(out, "no tree returned")
+				}
+				for _, x := range lib.CanonErrs(errs) {
+					out = append(out, "E "+x)
+				}
+				return out
+			}
+			ga := got(e, errs)
+			fresh := newModules(h)
+			for k := range goodN {
+				if err := fresh.Parse(goodT[k], goodN[k]); err != nil {
+					add(fmt.Sprintf("op %d: the batch run on a fresh set rejects %s, which the history accepted: %s", i, goodN[k], firstLine(err.Error())))
+				}
+			}
+			fe, ferrs := fresh.GetModule(op.Name)
+			sr.GetDiff = returnedDiff(ga, got(fe, ferrs))
+			base, ext := extendedDump(ms, errs)
+			sr.Dump = base
+			if len(sr.Dump) == 0 {
+				sr.Dump = []string{}
+			}
+			_, fext := extendedDump(fresh, ferrs)
+			shadow.GetModule(op.Name)
+			treesAfter(shadow)
+			ext = append(ext, queries(ms, errs, false)...)
+			fext = append(fext, queries(fresh, ferrs, false)...)
+			sr.TreeDiff = treeDiff(treesAfter(ms), treesAfter(fresh))
+			if d := rescorr.Diff(ext, fext); d != "" {
+				sr.BatchDiff = strings.Replace(d, "| model:", "| batch on a fresh set:", 1)
+				sr.BatchDiff = strings.Replace(sr.BatchDiff, "go:", "history:", 1)
+				sr.Batch = fext
+			}
 		case "read":
 			m := ms.Modules[op.Key]
 			if m == nil {
@@ -698,6 +793,11 @@ func request(h History, g GoRes) string {
 			sb.WriteString(" L 1 " + strings.TrimSpace(w))
 		case "process":
 			sb.WriteString(" P")
+		case "getmodule":
+			// for the session machine GetModule of a registered name is a processing run
+			if g.Steps[i].Read != "nomodule" {
+				sb.WriteString(" P")
+			}
 		case "read":
 			sb.WriteString(" R " + lib.HexS(op.Key) + " " + lib.HexS(op.Path))
 		}
@@ -768,6 +868,14 @@ func compare(o Outcome) (violations, disagreements []diff) {
 		violations = append(violations, diff{kind: "spec", what: x, goV: o.Go.Findings})
 	}
 	for i, s := range o.Go.Steps {
+		opName := "process"
+		if o.H.Ops[i].Op == "getmodule" {
+			opName = "getmodule " + o.H.Ops[i].Name
+		}
+		if s.GetDiff != "" {
+			violations = append(violations, diff{kind: "spec", goV: s.GetDiff,
+				what: fmt.Sprintf("op %d (%s): loading more modules after a processing run and processing again gives the same result as loading everything into a fresh set first - Modules.GetModule (documented: Read if needed + Process + ToEntry) returns another tree / other errors on the one value than on a fresh set that loaded the same accepted texts: %s", i, opName, s.GetDiff)})
+		}
 		if s.BatchDiff != "" {
 			d := s.BatchDiff
 			if s.TreeDiff != "" {
@@ -775,14 +883,14 @@ func compare(o Outcome) (violations, disagreements []diff) {
 				d = s.TreeDiff + " || " + d
 			}
 			violations = append(violations, diff{kind: "spec", goV: map[string]any{"history": s.Dump, "batch_on_fresh_set": s.Batch},
-				what: fmt.Sprintf("op %d (process): the one Modules value and a batch run of the accepted texts on a fresh set differ: %s", i, d)})
+				what: fmt.Sprintf("op %d (%s): the one Modules value and a batch run of the accepted texts on a fresh set differ: %s", i, opName, d)})
 		} else if s.TreeDiff != "" {
 			how := "a clean run"
 			if rescorr.HasErrors(s.Dump) {
 				how = "a run that reported errors (the same errors on both sides)"
 			}
 			violations = append(violations, diff{kind: "spec", goV: s.TreeDiff,
-				what: fmt.Sprintf("op %d (process): after %s the trees ToEntry hands out differ from those of a fresh set that loaded the same accepted texts and ran Process once - the one value remembers an earlier generation: %s", i, how, s.TreeDiff)})
+				what: fmt.Sprintf("op %d (%s): after %s the trees ToEntry hands out differ from those of a fresh set that loaded the same accepted texts and ran Process once - the one value remembers an earlier generation: %s", i, opName, how, s.TreeDiff)})
 		}
 		if s.ShadowDiff != "" {
 			violations = append(violations, diff{kind: "spec", goV: s.ShadowDiff,
@@ -798,7 +906,7 @@ func compare(o Outcome) (violations, disagreements []diff) {
 	}
 	k := 0
 	for i, op := range o.H.Ops {
-		if op.Op == "walk" {
+		if op.Op == "walk" || (op.Op == "getmodule" && o.Go.Steps[i].Read == "nomodule") {
 			continue
 		}
 		if k >= len(o.Model) {
@@ -833,7 +941,7 @@ func compare(o Outcome) (violations, disagreements []diff) {
 				disagreements = append(disagreements, diff{kind: "correspondence", goV: s.Load + " " + s.Err, model: m,
 					what: fmt.Sprintf("op %d (load %s): go: %s, model: %s", i, op.Name, s.Load, m)})
 			}
-		case "process":
+		case "process", "getmodule":
 			var md []string
 			if m != "" {
 				md = strings.Split(m, " ; ")
@@ -847,7 +955,7 @@ func compare(o Outcome) (violations, disagreements []diff) {
 			}
 			if d := rescorr.Diff(gp, mp); d != "" {
 				disagreements = append(disagreements, diff{kind: "correspondence", goV: gp, model: mp,
-					what: fmt.Sprintf("op %d (process): %s", i, d)})
+					what: fmt.Sprintf("op %d (%s): %s", i, op.Op, d)})
 			}
 		case "read":
 			if m == "unprocessed" {
@@ -945,6 +1053,8 @@ func replay(f *lib.Flags) {
 			fmt.Printf("--- op %d: load %s (fault: %q)\n%s", i, op.Name, op.Fault, op.Text)
 		case "read":
 			fmt.Printf("--- op %d: read %s %s\n", i, op.Key, op.Path)
+		case "getmodule":
+			fmt.Printf("--- op %d: getmodule %s\n", i, op.Name)
 		default:
 			fmt.Printf("--- op %d: %s\n", i, op.Op)
 		}
@@ -957,7 +1067,7 @@ func replay(f *lib.Flags) {
 	for i, op := range h.Ops {
 		s := o.Go.Steps[i]
 		m := "(not asked)"
-		if op.Op != "walk" && o.Model != nil && k < len(o.Model) {
+		if op.Op != "walk" && !(op.Op == "getmodule" && s.Read == "nomodule") && o.Model != nil && k < len(o.Model) {
 			m = o.Model[k]
 			k++
 		}
@@ -966,8 +1076,19 @@ func replay(f *lib.Flags) {
 			fmt.Printf("op %d load %s: go: %s %s | model: %s\n", i, op.Name, s.Load, s.Err, m)
 		case "read":
 			fmt.Printf("op %d read: go: %s | model: %s\n", i, readable(s.Read), readable(m))
-		case "process":
-			fmt.Printf("op %d process: go (one value):\n", i)
+		case "process", "getmodule":
+			if op.Op == "getmodule" {
+				if s.Read == "nomodule" {
+					fmt.Printf("op %d getmodule %s: no such module registered (not executed)\n", i, op.Name)
+					continue
+				}
+				if s.GetDiff != "" {
+					fmt.Printf("op %d getmodule %s: what GetModule returns DIFFERS from a fresh set's: %s\n", i, op.Name, s.GetDiff)
+				} else {
+					fmt.Printf("op %d getmodule %s: returns what a fresh set with the same accepted texts returns\n", i, op.Name)
+				}
+			}
+			fmt.Printf("op %d %s: go (one value):\n", i, op.Op)
 			for _, r := range lib.Project(s.Dump, keys, true) {
 				fmt.Println("   ", rescorr.Readable(r))
 			}
@@ -1072,6 +1193,27 @@ func main() {
 		}
 		hs = append(hs, h)
 	}
+	// histories with GetModule(name) as an operation of its own (it processes on demand), and histories
+	// around imports / includes pinned by revision-date whose exact revision arrives after a run that
+	// fell back to another revision (shards of their own)
+	nGetH, nPinned := 400, 400
+	if f.Thorough() {
+		nGetH, nPinned = 12000, 12000
+	}
+	for i := 0; i < nGetH; i++ {
+		h := genGetModuleHistory(f.Rand(5000000+i), maxLen)
+		if i%4 == 3 {
+			h.Mode = "stmts"
+		}
+		hs = append(hs, h)
+	}
+	for i := 0; i < nPinned; i++ {
+		h := genPinnedHistory(f.Rand(6000000+i), maxLen)
+		if i%4 == 3 {
+			h.Mode = "stmts"
+		}
+		hs = append(hs, h)
+	}
 	if only := os.Getenv("CORR_C18_ONLY"); only != "" {
 		// diagnosis only (not used by ./check): run the histories whose origin starts with this
 		var sel []History
@@ -1086,6 +1228,7 @@ func main() {
 	var nProcErrAfterClean, nProcCleanAfterErr int64
 	droppedKinds := map[string]int64{}
 	errStages := map[string]int64{}
+	var nGet, nGetUnprocessed, nGetAfterLoadAfterRun, nGetErr int64
 	var nOps, nProc, nProcClean, nProcErr, nRead, nReadCompared, nWalk, outside, crashes, reproc, afterReject, incremental, readsEverywhere, refusedAfterProc, readAfterRefused int64
 	faults := map[string]int64{}
 	loads := map[string]int64{}
@@ -1207,6 +1350,27 @@ func main() {
 						afterReject++
 					}
 					seenProc, lastWasProc = true, true
+				case "getmodule":
+					if s.Read == "nomodule" {
+						break
+					}
+					nGet++
+					if !lastWasProc {
+						nGetUnprocessed++ // GetModule has to process on demand: something was accepted since the last run (or nothing ran yet)
+					}
+					if seenProc && !lastWasProc {
+						nGetAfterLoadAfterRun++
+					}
+					if rescorr.HasErrors(s.Dump) {
+						nGetErr++
+						seenErr = true
+					} else {
+						seenClean = true
+					}
+					if seenAccept && (seenProc || seenReject) {
+						nontrivial = true
+					}
+					seenProc, lastWasProc = true, true
 				case "read":
 					nRead++
 				case "walk":
@@ -1214,8 +1378,8 @@ func main() {
 				}
 			}
 			k := 0
-			for _, op := range o.H.Ops {
-				if op.Op == "walk" || o.Model == nil || k >= len(o.Model) {
+			for i, op := range o.H.Ops {
+				if op.Op == "walk" || (op.Op == "getmodule" && o.Go.Steps[i].Read == "nomodule") || o.Model == nil || k >= len(o.Model) {
 					continue
 				}
 				if op.Op == "read" && o.Model[k] != "unprocessed" {
@@ -1241,7 +1405,7 @@ func main() {
 	if maxLen >= 12 {
 		maxMods = 3
 	}
-	res.Rule = fmt.Sprintf("histories of load(good text) | load(bad text) | process | read | walk of length <= %d on one Modules value: %d corpus histories (the D30-D32, D44-D46, D55 witnesses, the histories of the Lean non-vacuity examples, imports / submodules arriving after a first Process, unions over typedefs of a library whose newer revision arrives late, extension-bearing built-in types whose extension module arrives after a Process / read), each in raw-text and in statement-tree mode, then seeded histories over the texts of a generated module set (harness/gen: 1-%d modules with submodules, groupings, typedefs, identities, augments, deviations) in as-generated / submodules-first / reversed / shuffled arrival order, 40%% with another (later or earlier) revision of one module whose body differs, one load in seven offers two pending texts as one (several top-level statements, registered all or nothing), with process, read (Find), walk (ToEntry + GetErrors + a visit of every node of everything) and bad texts interleaved; every tenth history is about namespaces: after a Process, walk or read of a generated set a differently named module arrives that claims a namespace already in use, and / or a newer revision of a module with a changed namespace (a fresh one or another module's), and / or a module that takes over the namespace such a revision gave up; every fifth history is built around a submodule revision that is superseded after a Process: module m includes s, the first revision of s has an include (submodule t) and / or an import (module lib) of its own and uses what they bring (grouping, typedef, identity base, identityref), a newer (one time in five: older) revision of s without those statements arrives after a Process, sometimes a third one after another, so that nothing reaches the old revision - and sometimes t - any more; in the general histories one revision variant in three is of a submodule; every fifth history is built around types that name a built-in and still depend on the module set: a generated module gets unions (nested, inside typedefs at module and container level, in leaf-lists) whose members are typedefs of an imported type library beside decimal64 / enumeration / bits / leafref members with restrictions of their own, and built-in types (string, int8, enumeration, decimal64, bits, leafref, boolean, union and its members) that carry an extension statement of an imported module; the library arrives early in one revision and after a Process in another that redefines the typedefs (other base kind, range, enum / bit set, fraction digits, union members), the extension module arrives only after a first Process, walk or read; bad texts = the good text of a pending or loaded module with a nested scope holding an unresolvable typedef (60%%) and ONE late fault (unknown substatement deep inside the last statement, missing type at the end, syntax error at the end, a non-module node after the module, a second module in the text that is a duplicate, the text twice; a text of 2-3 top-level statements that starts with a NEWER REVISION of a loaded module - sometimes with a moved namespace, sometimes behind a brand-new module - and ends with a statement add refuses: a duplicate, a non-module node, a module name with an @) or an exact duplicate (same or other file name); on top of these %d histories built around a REFUSED TEXT OF SEVERAL STATEMENTS after a processing run: a generated set (submodules, augments, deviations, choices, uses - the processed trees differ from a raw conversion; one time in three one text is held back) is loaded and processed, then once or twice a text of 2-4 top-level statements whose earlier statements add accepts (a brand-new module with / without revision or augmenting a loaded module, a newer revision of a loaded module or submodule that takes the bare name over - sometimes with a moved namespace or a dropped node -, an older revision, a brand-new submodule of a loaded module, the held-back text) and whose LAST statement add refuses (a duplicate of a loaded text, the first statement of the text again, the same name and revision with another body, a container / grouping / typedef / leaf, a module or submodule name with an @), directly followed by 1-2 reads (Find from ms.Modules[name] of modules the text mentioned and of modules it did not), sometimes a walk, sometimes the held-back text arriving on its own with a read before the next Process, then a final Process; half of them put the read battery to the one value and its shadow after every operation; on top of these %d histories built around a DROPPED DEFINITION: a library module dl (one time in four with its definitions in a submodule) is loaded in a first revision with typedefs (t, a chain t2 -> t, a union over t), a grouping, identities and a data tree, a user module (hand-made or a generated one) uses them in leaves, unions (nested, in typedefs, in leaf-lists), local typedef chains, defaults, list keys, rpc input, choices, uses (also through a grouping of its own), identities / identityrefs, augments and deviations (deviate replace type, replace default, add, not-supported) of the library's nodes; after a clean Process a NEWER revision arrives that drops 1-3 of those definitions or nodes (repairing its own uses of them or, one time in three, left broken itself), so that the next Process fails at the typedef / identity stage, the conversion stage, the augment stage or the deviation stage; one time in three a third revision restores everything (clean again), one time in six the late revision is an OLDER one (control); and %d histories built around a READ OF A FRESHLY LOADED MODULE BETWEEN A LOAD AND THE NEXT PROCESS: module a reaches typedefs, a grouping and identities through a submodule (one time in three through two includes; one time in four it holds them itself), module u uses them through its import, everything is processed, then a newer revision of the submodule (or of a) with another base type / other grouping leaves / other derivations and a NEW module c using the same definitions arrive in either order, with a read of c (Find from ms.Modules[c], or a walk) after both, between them or before the revision, sometimes a read of the old module too, then Process (sometimes twice, sometimes another new module with a read of its own and a third Process); distinct_nontrivial = distinct histories (by operations and texts) with a process that follows an accepted load and an earlier process or rejected load, i.e. where incrementality or failed-load transparency is actually exercised", maxLen, nCorpus, maxMods, nRefused, nDropped, nBetween)
+	res.Rule = fmt.Sprintf("histories of load(good text) | load(bad text) | process | read | walk of length <= %d on one Modules value: %d corpus histories (the D30-D32, D44-D46, D55 witnesses, the histories of the Lean non-vacuity examples, imports / submodules arriving after a first Process, unions over typedefs of a library whose newer revision arrives late, extension-bearing built-in types whose extension module arrives after a Process / read), each in raw-text and in statement-tree mode, then seeded histories over the texts of a generated module set (harness/gen: 1-%d modules with submodules, groupings, typedefs, identities, augments, deviations) in as-generated / submodules-first / reversed / shuffled arrival order, 40%% with another (later or earlier) revision of one module whose body differs, one load in seven offers two pending texts as one (several top-level statements, registered all or nothing), with process, read (Find), walk (ToEntry + GetErrors + a visit of every node of everything) and bad texts interleaved; every tenth history is about namespaces: after a Process, walk or read of a generated set a differently named module arrives that claims a namespace already in use, and / or a newer revision of a module with a changed namespace (a fresh one or another module's), and / or a module that takes over the namespace such a revision gave up; every fifth history is built around a submodule revision that is superseded after a Process: module m includes s, the first revision of s has an include (submodule t) and / or an import (module lib) of its own and uses what they bring (grouping, typedef, identity base, identityref), a newer (one time in five: older) revision of s without those statements arrives after a Process, sometimes a third one after another, so that nothing reaches the old revision - and sometimes t - any more; in the general histories one revision variant in three is of a submodule; every fifth history is built around types that name a built-in and still depend on the module set: a generated module gets unions (nested, inside typedefs at module and container level, in leaf-lists) whose members are typedefs of an imported type library beside decimal64 / enumeration / bits / leafref members with restrictions of their own, and built-in types (string, int8, enumeration, decimal64, bits, leafref, boolean, union and its members) that carry an extension statement of an imported module; the library arrives early in one revision and after a Process in another that redefines the typedefs (other base kind, range, enum / bit set, fraction digits, union members), the extension module arrives only after a first Process, walk or read; bad texts = the good text of a pending or loaded module with a nested scope holding an unresolvable typedef (60%%) and ONE late fault (unknown substatement deep inside the last statement, missing type at the end, syntax error at the end, a non-module node after the module, a second module in the text that is a duplicate, the text twice; a text of 2-3 top-level statements that starts with a NEWER REVISION of a loaded module - sometimes with a moved namespace, sometimes behind a brand-new module - and ends with a statement add refuses: a duplicate, a non-module node, a module name with an @) or an exact duplicate (same or other file name); on top of these %d histories built around a REFUSED TEXT OF SEVERAL STATEMENTS after a processing run: a generated set (submodules, augments, deviations, choices, uses - the processed trees differ from a raw conversion; one time in three one text is held back) is loaded and processed, then once or twice a text of 2-4 top-level statements whose earlier statements add accepts (a brand-new module with / without revision or augmenting a loaded module, a newer revision of a loaded module or submodule that takes the bare name over - sometimes with a moved namespace or a dropped node -, an older revision, a brand-new submodule of a loaded module, the held-back text) and whose LAST statement add refuses (a duplicate of a loaded text, the first statement of the text again, the same name and revision with another body, a container / grouping / typedef / leaf, a module or submodule name with an @), directly followed by 1-2 reads (Find from ms.Modules[name] of modules the text mentioned and of modules it did not), sometimes a walk, sometimes the held-back text arriving on its own with a read before the next Process, then a final Process; half of them put the read battery to the one value and its shadow after every operation; on top of these %d histories built around a DROPPED DEFINITION: a library module dl (one time in four with its definitions in a submodule) is loaded in a first revision with typedefs (t, a chain t2 -> t, a union over t), a grouping, identities and a data tree, a user module (hand-made or a generated one) uses them in leaves, unions (nested, in typedefs, in leaf-lists), local typedef chains, defaults, list keys, rpc input, choices, uses (also through a grouping of its own), identities / identityrefs, augments and deviations (deviate replace type, replace default, add, not-supported) of the library's nodes; after a clean Process a NEWER revision arrives that drops 1-3 of those definitions or nodes (repairing its own uses of them or, one time in three, left broken itself), so that the next Process fails at the typedef / identity stage, the conversion stage, the augment stage or the deviation stage; one time in three a third revision restores everything (clean again), one time in six the late revision is an OLDER one (control); and %d histories built around a READ OF A FRESHLY LOADED MODULE BETWEEN A LOAD AND THE NEXT PROCESS: module a reaches typedefs, a grouping and identities through a submodule (one time in three through two includes; one time in four it holds them itself), module u uses them through its import, everything is processed, then a newer revision of the submodule (or of a) with another base type / other grouping leaves / other derivations and a NEW module c using the same definitions arrive in either order, with a read of c (Find from ms.Modules[c], or a walk) after both, between them or before the revision, sometimes a read of the old module too, then Process (sometimes twice, sometimes another new module with a read of its own and a third Process); and %d histories with GETMODULE(name) AS AN OPERATION OF ITS OWN (Modules.GetModule processes on demand and hands out one tree; what it returns is compared with GetModule of a fresh set that loaded the same accepted texts, then the value is compared as after a Process; for the session model it is a processing run): a library, a base module using its typedef / grouping / identities and an unrelated module are loaded, GetModule of the base (of the unrelated one, twice, or a Process) follows with no explicit Process, then 1-2 late loads of OTHER modules that change the tree of an already converted one (an augment into it - and into what the augment added -, a deviation of its leaves, a newer revision of the library it imports, a module deriving from the identity its identityref names, a newer revision of itself) or do not (an unrelated module), each followed by GetModule of the old module, of an untouched one, of the new one, once or repeatedly, with or without a read / Process before; one in three over the texts of a generated set with GetModule after most loads and of every module at the end; and %d histories around IMPORTS / INCLUDES PINNED BY REVISION-DATE whose exact revision is absent at first (FindModule falls back to the bare name, i.e. another - newer or older - revision) and arrives after a run: a library in three revisions that differ in typedefs, grouping leaves, identities and data nodes (one time in three the definitions sit in a submodule that each revision includes, pinned or not), a user that imports it pinned (one time in four through a submodule of its own) and uses l:g (in a container, at top level, through its own grouping), l:t / l:t2 (leaf, leaf-list, union typedef), identityref / derived identity, an augment and a deviation of the library's container, sometimes a second user pinned to another revision or unpinned; or a module whose include of its submodule is pinned, the submodule in two revisions; loads of users + the OTHER revision, a run (Process, twice, GetModule, with a read / walk behind), the pinned revision, a run, sometimes the third revision and a run; one in six has the pinned revision first (control); distinct_nontrivial = distinct histories (by operations and texts) with a process that follows an accepted load and an earlier process or rejected load, i.e. where incrementality or failed-load transparency is actually exercised", maxLen, nCorpus, maxMods, nRefused, nDropped, nBetween, nGetH, nPinned)
 	res.Distribution["histories_corpus"] = int64(2 * nCorpus)
 	res.Distribution["histories_with_loads_as_raw_text"] = modes["text"]
 	res.Distribution["histories_with_loads_as_statement_trees"] = modes["stmts"]
@@ -1256,6 +1420,10 @@ func main() {
 	res.Distribution["dropped_definition_first_error_class_of_the_failing_run"] = errStages
 	res.Distribution["process_after_a_rejected_load"] = afterReject
 	res.Distribution["accepted_loads_after_a_process"] = incremental
+	res.Distribution["getmodule_ops"] = nGet
+	res.Distribution["getmodule_ops_that_must_process_on_demand"] = nGetUnprocessed
+	res.Distribution["getmodule_ops_after_an_accepted_load_that_followed_a_run"] = nGetAfterLoadAfterRun
+	res.Distribution["getmodule_ops_with_errors"] = nGetErr
 	res.Distribution["read_ops"] = nRead
 	res.Distribution["read_ops_compared_with_model"] = nReadCompared
 	res.Distribution["walk_ops"] = nWalk
